@@ -1,7 +1,7 @@
 (* C09 — reference statistics equal direct computation and are additive.
    Property theorems only: each is closed by `exact <lemma>` (lemmas in Proofs/StatsP.v). *)
 From Coq Require Import ZArith List Bool Arith Permutation.
-From CTM Require Import Base.Sx Base.SortX Model.Tree Model.Stats Proofs.StatsP.
+From CTM Require Import Base.Sx Base.SortX Model.Tree Model.Stats Proofs.TreeP Proofs.StatsP Proofs.StatsTruncP Proofs.StatsMergeP.
 Import ListNotations.
 Open Scope Z_scope.
 
@@ -216,23 +216,15 @@ Qed.
 
 (* ------------------------------------------------------------------ *)
 (* truncation.
-   FULL STATEMENT (c09_truncation, not proved in this form):
-     if `data` is the table written for the taxonomy `old_tree` over the cells `cells`, and
-     truncate ng old_tree new_hier old_c2r data = Ok (new_tree, new_c2r, T), then
-     (new_c2r, T) is what `precompute` writes for `new_tree` over the same cells.
-   PROVED (c09_truncation_partial): the table-level half, for every new_hier (dropping the
+   FULL STATEMENT: c09_truncation below (table-level half composed with the taxonomy lemmas of C10).
+   c09_truncation_partial: the table-level half, for every new_hier (dropping the
    leaf level, inner levels, several levels):  with lvl = the deepest old level kept,
      - lvl = old leaf level: row map and table unchanged;
      - otherwise: the new row map lists the new tree's leaves against 0..n-1, and the row of
        EVERY new leaf L is stats_of_rows of all cells sitting in the rows of those old leaves
        whose ancestor at level lvl IN THE OLD TREE is L (zero if none) - by additivity.
-   MISSING for the full statement: that the ancestor relation of the old tree is the parent
-   structure of new_tree (nodes (leaf_level new_tree) = the nodes of old level lvl, each with
-   the union of its descendants' cells) and that new_tree validates, hence has distinct
-   leaves: these are C10's c10_drop_preserves lemmas about drop_level/drop_leaf_level
-   (Proofs/TreeP.v, not part of this area).  Here `NoDup (nodes (leaf_level nt))` is a
-   hypothesis; `NoDup` of the old leaves and of the old row map are what the writer produced
-   (c09_rows_addressed_by_name). *)
+   In the partial theorem `NoDup (nodes (leaf_level nt))`, `NoDup` of the old leaves and of the
+   old row map are hypotheses; c09_truncation discharges them from `validate old_tree`. *)
 Theorem c09_truncation_partial : forall D nc0 ng lookup cells old_tree new_hier old_c2r nt nc T,
   Forall (fun c => length (snd c) = ng) cells ->
   NoDup (nodes (leaf_level old_tree)) -> NoDup (map fst old_c2r) -> NoDup (map snd old_c2r) ->
@@ -283,4 +275,174 @@ Proof.
   cbv zeta. split; [repeat constructor; cbn; intuition discriminate|].
   eexists. eexists. eexists. split; [vm_compute; reflexivity|].
   split; [repeat constructor; cbn; intuition discriminate|]. split; reflexivity.
+Qed.
+
+(* ------------------------------------------------------------------ *)
+(* c09_truncation, full statement.  t = an accepted taxonomy (validate t = true; wf t = the
+   keys of every level are pairwise different, true of any Python dict), (c2r, data) = the
+   statistics file the writer produces for t over `files`.  If truncating it to the levels
+   new_hier succeeds with (nt, nc, T), then, with kept = the old levels wanted (in order) and
+   lvl = the deepest of them:
+   (a) nt is t without the other levels: the result of Tree.drop_levels (drop_level applied
+       repeatedly, positions relative to the current tree) followed, when the old leaf level
+       goes, by one drop_leaf_level; nt is again accepted and well-formed, has one level per
+       kept level with the nodes of that level of t, every node has the ancestors it had in t,
+       and a new leaf L owns exactly the cells of the old leaves whose ancestor at level lvl is
+       L (Tree.ancestor_at t (n-1) o lvl; o itself when lvl is the old leaf level);
+   (b) the row map nc lists exactly the leaves of nt against the rows 0..length T - 1, and for
+       every leaf L of nt its row of T is the row of L in the file the writer produces DIRECTLY
+       for the coarser taxonomy nt over the same files - whatever the chunk size and worker
+       count of that run, which does not fail.
+   Covers dropping inner levels, the leaf level, several levels at once (c09_truncation_nonvacuous2). *)
+Theorem c09_truncation : forall D ng t files rows p new_hier c2r data nt nc T,
+  validate t = true -> wf t -> files_wf ng files -> (1 <= rows)%nat -> (1 <= p)%nat ->
+  precompute D (leaf_level t) files rows p = Ok (c2r, data) ->
+  truncate ng t new_hier c2r data = Ok (nt, nc, T) ->
+  let n := length t in
+  let kept := filter (fun l => nat_mem l new_hier) (seq 0 n) in
+  let lvl := last kept 0%nat in
+  (exists lis t1, drops_ok n lis /\ Tree.drop_levels t lis = TOk t1 /\
+      ((lvl = (n - 1)%nat /\ nt = t1) \/ (lvl <> (n - 1)%nat /\ drop_leaf_level t1 = TOk nt))) /\
+  validate nt = true /\ wf nt /\ length nt = length kept /\ (1 <= length kept)%nat /\
+  (forall k, (k < length kept)%nat -> nodes (nth k nt []) = nodes (nth (nth k kept 0%nat) t [])) /\
+  (forall j k x, (k <= j < length kept)%nat ->
+     Tree.ancestor_at nt j x k = Tree.ancestor_at t (nth j kept 0%nat) x (nth k kept 0%nat)) /\
+  (forall L c, lists (leaf_level nt) L c <->
+     exists o, lists (leaf_level t) o c /\ Tree.ancestor_at t (n - 1) o lvl = Some L) /\
+  Permutation (map fst nc) (nodes (leaf_level nt)) /\ map snd nc = seq 0 (length T) /\
+  forall rows' p', (1 <= rows')%nat -> (1 <= p')%nat ->
+    exists c2r' data', precompute D (leaf_level nt) files rows' p' = Ok (c2r', data') /\
+      length data' = length T /\
+      forall L, In L (nodes (leaf_level nt)) ->
+        exists r r' s, dict_get L nc = Some r /\ dict_get L c2r' = Some r' /\
+                       nth_error T r = Some s /\ nth_error data' r' = Some s.
+Proof. exact truncation_full. Qed.
+Print Assumptions c09_truncation.
+
+(* the hypotheses hold on a concrete file: c09_tree (3 levels) over two h5ad files with an
+   unlabelled cell; dropping the leaf level, and dropping the two lower levels at once *)
+Definition c09_tfiles : list h5ad :=
+  [ mk_h5ad [100; 101] [(0, [8; 4]); (1, [0; 16]); (4, [5; 5])];
+    mk_h5ad [100; 101] [(2, [9; 7]); (3, [1; 1])] ].
+Example c09_truncation_nonvacuous2 :
+  validate c09_tree = true /\ wf c09_tree /\ files_wf 2 c09_tfiles /\
+  exists c2r data,
+    precompute 8 (leaf_level c09_tree) c09_tfiles 2 2 = Ok (c2r, data) /\
+    truncate 2 c09_tree [0; 1]%nat c2r data =
+      Ok ([ [(1, [5; 6])]; [(5, [0; 1; 2]); (6, [3])] ], [(5, 0%nat); (6, 1%nat)],
+          [ stats_of_rows 8 2 [[8; 4]; [0; 16]; [9; 7]]; stats_of_rows 8 2 [[1; 1]] ]) /\
+    truncate 2 c09_tree [0]%nat c2r data =
+      Ok ([ [(1, [0; 1; 2; 3])] ], [(1, 0%nat)],
+          [ stats_of_rows 8 2 [[8; 4]; [0; 16]; [9; 7]; [1; 1]] ]) /\
+    truncate 2 c09_tree [2]%nat c2r data = Ok ([ nth 2 c09_tree [] ], c2r, data) /\
+    precompute 8 [(5, [0; 1; 2]); (6, [3])] c09_tfiles 1 3 =
+      Ok ([(5, 0%nat); (6, 1%nat)],
+          [ stats_of_rows 8 2 [[8; 4]; [0; 16]; [9; 7]]; stats_of_rows 8 2 [[1; 1]] ]).
+Proof.
+  split; [vm_compute; reflexivity|]. split; [apply wf_small; reflexivity|].
+  split; [split; [repeat constructor | reflexivity]|].
+  eexists. eexists. split; [vm_compute; reflexivity|].
+  split; [vm_compute; reflexivity|]. split; [vm_compute; reflexivity|].
+  split; vm_compute; reflexivity.
+Qed.
+
+(* truncation never raises on a legitimate request: for an accepted taxonomy, a statistics
+   file whose row map gives every leaf a row of the table (true of the writer's output:
+   c09_truncation_total_writer, and of merged files), and a list of levels that is not empty,
+   names levels of the taxonomy only, is in hierarchy order and leaves at least one level out
+   (these are the four tests the code makes before it starts; repeated names are allowed) *)
+Theorem c09_truncation_total : forall ng t new_hier c2r data,
+  validate t = true -> wf t ->
+  (forall o, In o (nodes (leaf_level t)) -> exists r, dict_get o c2r = Some r /\ (r < length data)%nat) ->
+  new_hier <> [] -> Forall (fun l => (l < length t)%nat) new_hier -> nat_sorted_b new_hier = true ->
+  (exists l, (l < length t)%nat /\ ~ In l new_hier) ->
+  exists nt nc T, truncate ng t new_hier c2r data = Ok (nt, nc, T).
+Proof. exact truncation_total. Qed.
+Print Assumptions c09_truncation_total.
+
+Theorem c09_truncation_total_writer : forall D ng t files rows p new_hier c2r data,
+  validate t = true -> wf t -> files_wf ng files -> (1 <= rows)%nat -> (1 <= p)%nat ->
+  precompute D (leaf_level t) files rows p = Ok (c2r, data) ->
+  new_hier <> [] -> Forall (fun l => (l < length t)%nat) new_hier -> nat_sorted_b new_hier = true ->
+  (exists l, (l < length t)%nat /\ ~ In l new_hier) ->
+  exists nt nc T, truncate ng t new_hier c2r data = Ok (nt, nc, T).
+Proof. exact truncation_total_writer. Qed.
+Print Assumptions c09_truncation_total_writer.
+
+(* the premises on new_hier are the ones of c09_truncation_nonvacuous2 ([0;1], [0], [2] on the
+   3-level c09_tree); an empty request fails in the model (the last drop hits a flat tree) *)
+Example c09_truncation_total_nonvacuous :
+  ([0; 1]%nat <> [] /\ Forall (fun l => (l < length c09_tree)%nat) [0; 1]%nat /\ nat_sorted_b [0; 1]%nat = true /\
+   exists l, (l < length c09_tree)%nat /\ ~ In l [0; 1]%nat) /\
+  truncate 2 c09_tree [] [(11, 0%nat); (12, 1%nat); (13, 2%nat)] (direct 8 3 2 c09_lookup c09_cells) = Err (E_TREE + E_FLAT).
+Proof.
+  split; [|vm_compute; reflexivity].
+  split; [discriminate|]. split; [repeat constructor|]. split; [reflexivity|].
+  exists 2%nat. split; [cbn; repeat constructor|]. cbn. intuition discriminate.
+Qed.
+
+(* ------------------------------------------------------------------ *)
+(* merge_precompute_files, further properties (Proofs/StatsMergeP.v).
+     has_all_rows f := every leaf of f's taxonomy has a row in f's cluster_to_row (what the
+                       writer produces: c09_rows_addressed_by_name; otherwise run_leaf_census raises)
+     no_ties files  := two rows of the same cluster (in any two files) with the same number of
+                       cells are the same row *)
+
+(* idempotence: merging a file with itself (listed once or several times) returns it unchanged;
+   merging it with a copy of itself stored under another path leaves the table unchanged *)
+Theorem c09_merge_idempotent : forall f, has_all_rows f ->
+  (forall n, merge_precompute (repeat f (S n)) = Ok (f, p_tab f)) /\
+  (forall f', p_path f' <> p_path f -> p_tree f' = p_tree f -> p_c2r f' = p_c2r f ->
+              p_cols f' = p_cols f -> p_tab f' = p_tab f ->
+     exists most, (most = f \/ most = f') /\
+       merge_precompute [f; f'] = Ok (most, p_tab f) /\ merge_precompute [f'; f] = Ok (most, p_tab f)).
+Proof. exact merge_idempotent. Qed.
+Print Assumptions c09_merge_idempotent.
+
+(* the order of the input list is irrelevant, ties or not (the code sorts the paths first) *)
+Theorem c09_merge_order_irrelevant : forall files files',
+  NoDup (map p_path files) -> Permutation files files' ->
+  merge_precompute files = merge_precompute files'.
+Proof. exact merge_order_irrelevant. Qed.
+Print Assumptions c09_merge_order_irrelevant.
+
+(* without ties the visiting order - i.e. the file names, which fix it - is irrelevant too: the
+   same tables stored under any other names, listed in any order, merge to the same table *)
+Theorem c09_merge_order_irrelevant_without_ties : forall files files' most most' T T',
+  NoDup (map p_path files) -> NoDup (map p_path files') ->
+  Permutation (map p_tab files) (map p_tab files') ->
+  no_ties files ->
+  merge_precompute files = Ok (most, T) -> merge_precompute files' = Ok (most', T') ->
+  T = T'.
+Proof. exact merge_names_irrelevant_without_ties. Qed.
+Print Assumptions c09_merge_order_irrelevant_without_ties.
+
+(* ... and the hypothesis is needed: with a tie, swapping the names of two files changes the
+   merged row (the tie rule, c09_merge_tie_rule) *)
+Theorem c09_merge_names_matter_with_ties :
+  merge_precompute [tie_f 1 7; tie_f 2 9] = Ok (tie_f 1 7, [mk_summary 5 [7] [7] [1] [1] [1]]) /\
+  merge_precompute [tie_f 2 7; tie_f 1 9] = Ok (tie_f 1 9, [mk_summary 5 [9] [9] [1] [1] [1]]).
+Proof. exact merge_names_matter_with_ties. Qed.
+Print Assumptions c09_merge_names_matter_with_ties.
+
+Example c09_merge_props_nonvacuous :
+  has_all_rows (c09_pf 3 [5; 1]) /\
+  no_ties [c09_pf 3 [5; 1]; c09_pf 1 [2; 7]; c09_pf 2 [4; 6]] /\
+  Permutation (map p_tab [c09_pf 3 [5; 1]; c09_pf 1 [2; 7]; c09_pf 2 [4; 6]])
+              (map p_tab [c09_pf 8 [2; 7]; c09_pf 9 [5; 1]; c09_pf 4 [4; 6]]) /\
+  (exists most, merge_precompute [c09_pf 3 [5; 1]; c09_pf 1 [2; 7]; c09_pf 2 [4; 6]] = Ok (most, p_tab (c09_pf 0 [5; 7]))) /\
+  (exists most, merge_precompute [c09_pf 8 [2; 7]; c09_pf 9 [5; 1]; c09_pf 4 [4; 6]] = Ok (most, p_tab (c09_pf 0 [5; 7]))).
+Proof.
+  split.
+  { intros leaf Hl. cbn in Hl. destruct Hl as [<-|[<-|[]]]; eexists; vm_compute; reflexivity. }
+  split.
+  { intros f g r s s' Hf Hg Hs Hs' En.
+    assert (G : forall h, In h [c09_pf 3 [5; 1]; c09_pf 1 [2; 7]; c09_pf 2 [4; 6]] -> forall u,
+              nth_error (p_tab h) r = Some u -> u = mk_summary (s_n u) [s_n u] [s_n u] [s_n u] [0] [s_n u]).
+    { intros h Hh u Hu. cbn in Hh. destruct Hh as [<-|[<-|[<-|[]]]]; destruct r as [|[|r]]; cbn in Hu;
+        try (destruct r; discriminate Hu); inversion Hu; reflexivity. }
+    rewrite (G f Hf s Hs), (G g Hg s' Hs'), En. reflexivity. }
+  split.
+  { cbn [map]. apply perm_swap. }
+  split; eexists; vm_compute; reflexivity.
 Qed.
